@@ -1,5 +1,6 @@
 import BeffVerif.Props.C07
 import BeffVerif.Props.C07Print
+import BeffVerif.Props.C07Keyof
 open BeffVerif.C07
 #print axioms excluded_numbers_widen_to_number
 #print axioms literal_sets_are_exact
@@ -8,3 +9,5 @@ open BeffVerif.C07
 #print axioms indexed_access_under_index_signature
 #print axioms BeffVerif.C07Print.removeNots_spine_free
 #print axioms BeffVerif.C07Print.exclude_result_spine_free
+#print axioms BeffVerif.C07Keyof.keyof_flat_object
+#print axioms BeffVerif.C07Keyof.keyof_flat_object_members
